@@ -257,12 +257,14 @@ func (seg *Segment) Match(ctx *types.Context) bool {
 			}
 		}
 	case Regexp:
+		// 正则表达式会将无效的 utf8 字节当作 U+FFFD 处理，Suffix 作为普通字符串需要按字节再次比较。
 		if seg.ignoreName {
-			if loc := seg.expr.FindStringIndex(ctx.Path); loc != nil && loc[0] == 0 {
+			if loc := seg.expr.FindStringIndex(ctx.Path); loc != nil && loc[0] == 0 && strings.HasSuffix(ctx.Path[:loc[1]], seg.Suffix) {
 				ctx.Path = ctx.Path[loc[1]:]
 				return true
 			}
-		} else if loc := seg.expr.FindStringSubmatchIndex(ctx.Path); loc != nil && loc[0] == 0 && loc[3] >= 0 { // loc[3] 为 -1 表示命名分组未参与匹配
+		} else if loc := seg.expr.FindStringSubmatchIndex(ctx.Path); loc != nil && loc[0] == 0 && loc[3] >= 0 && // loc[3] 为 -1 表示命名分组未参与匹配
+			ctx.Path[loc[3]:loc[1]] == seg.Suffix {
 			ctx.Set(seg.Name, ctx.Path[:loc[3]]) // 只有 ignoreName == false，才会有捕获的值
 			ctx.Path = ctx.Path[loc[1]:]
 			return true
